@@ -6,8 +6,8 @@ and the node's process survived it (the harness attributes a dead worker process
 input and reports `CRASH <function>` there).  `alive => serving`: Members/Stats/State still answer
 and a fresh user event is still delivered.
 
-Model output: for `inj msg`/`inj merge*` the control skeleton `SerfModel.Handlers.handle` is run on
-the input's bytes with a decoder that rejects everything (the type-byte dispatch and the length
+Model output: for `inj msg`/`inj merge*`/`inj ping`/member metadata/`inj respopen` the control skeleton
+`SerfModel.Handlers.handle` is run on the input's bytes with a decoder that rejects everything (the type-byte dispatch and the length
 guards are exercised; `Props/C09.lean` proves the outcome is never `.panic` for ANY decoder); the
 prediction is `ok` unless the skeleton reaches a `.panic` site.  The monitor judges the
 implementation's own output: anything but `ok`/`serving` fails, keyed by the crashing function.
@@ -15,22 +15,54 @@ implementation's own output: anything but `ok`/`serving` fails, keyed by the cra
 namespace SerfModel.Check.C09
 open SerfModel SerfModel.Check SerfModel.Handlers
 
-def predict (op : List String) : String :=
+/-- per case: has the node been created (first real input), and was it created with zero-size buffers -/
+structure St where
+  started : Bool := false
+  zeroBuffers : Bool := false
+
+def skeletonOutcome (inp : Input) : String :=
+  match (handle defaultCfg rejectAll initState inp).2 with
+  | .panic s => "MODEL-PANIC " ++ s
+  | _ => "ok"
+
+/-- a message at Lamport time 2^64-1 on a node whose buffers have the given size: the model's own verdict -/
+def wrapOutcome (zero : Bool) (query : Bool) : String :=
+  let st : State := if zero then { eventBuf := [], queryBuf := [] } else initState
+  let o := if query then
+      (handleQuery rejectAll st { ltime := twoPow64 - 1, id := 1, name := [], payload := [], filters := [], ack := false, noBroadcast := false }).2
+    else (handleUserEvent st (twoPow64 - 1)).2
+  match o with
+  | .panic _ => "divide-by-zero"
+  | _ => "ok"
+
+def predict (s : St) (op : List String) : String :=
   match op with
+  | ["inj", "wrapevent"] => wrapOutcome s.zeroBuffers false
+  | ["inj", "wrapquery"] => wrapOutcome s.zeroBuffers true
   | ["inj", "msg", h] =>
     match bytesOfHex? h with
-    | some b => match (handle defaultCfg rejectAll initState (.msg (b.map (·.toNat)))).2 with
-      | .panic s => "MODEL-PANIC " ++ s
-      | _ => "ok"
+    | some b => skeletonOutcome (.msg (b.map (·.toNat)))
     | none => "bad-op"
   | ["inj", m, h] =>
     if m == "merge0" || m == "merge1" then
       match bytesOfHex? h with
-      | some b => match (handle defaultCfg rejectAll initState (.merge (b.map (·.toNat)))).2 with
-        | .panic s => "MODEL-PANIC " ++ s
-        | _ => "ok"
+      | some b => skeletonOutcome (.merge (b.map (·.toNat)))
       | none => "bad-op"
     else "ok"
+  | ["inj", "ping", _rtt, _name, h] =>
+    match bytesOfHex? h with
+    | some b => skeletonOutcome (.ping (b.map (·.toNat)))
+    | none => "bad-op"
+  | ["inj", "respopen", _flags, _from, h] =>
+    match bytesOfHex? h with
+    | some b =>
+      let p := b.map (·.toNat)
+      if skeletonOutcome (.conflictReply p) == "ok" then skeletonOutcome (.keyReply p) else skeletonOutcome (.conflictReply p)
+    | none => "bad-op"
+  | ["inj", _kind, _name, _addr, metaHex, _port, _state] =>
+    match bytesOfHex? metaHex with
+    | some b => skeletonOutcome (.metadata (b.map (·.toNat)))
+    | none => "bad-op"
   | "inj" :: _ => "ok"
   | ["alive"] => "serving"
   | _ => "bad-op"
@@ -38,13 +70,21 @@ def predict (op : List String) : String :=
 def keyOf (impl : String) : String :=
   match impl.splitOn " " with
   | "CRASH" :: site :: _ => "crash-" ++ site
+  | "PANIC" :: _ => "panic"
   | _ => "not-serving"
 
-def step (s : Unit) (op : List String) (impl : String) : LineOut Unit :=
-  let bad := !(impl == "ok" || impl == "serving" || impl == "bad-op")
-  { state := s, model := some (predict op),
+def step (s : St) (op : List String) (impl : String) : LineOut St :=
+  let s' : St := match op with
+    | ["inj", "zerobuffers"] => if s.started then s else { s with zeroBuffers := true }
+    | ["inj", "slowquery"] => s
+    | _ => { s with started := true }
+  -- the division by zero of a node that was configured with zero-size buffers is the predicted consequence of the
+  -- violated configuration precondition, not a reaction to network input
+  let excused := impl == "divide-by-zero" && s.zeroBuffers
+  let bad := !(impl == "ok" || impl == "serving" || impl == "bad-op" || impl == "skipped-node-does-not-start" || excused)
+  { state := s', model := some (predict s op),
     monitor := if bad then some (keyOf impl, s!"the node did not survive / stopped serving: {impl}") else none }
 
-def checker : Checker := { σ := Unit, init := (), step := step }
+def checker : Checker := { σ := St, init := {}, step := step }
 
 end SerfModel.Check.C09
